@@ -254,6 +254,7 @@ type Env struct {
 	ProxyAddr string
 	Origin    *Origin
 	CAPool    *x509.CertPool
+	CA        *certs.PrivateCA // the proxy's certificate authority (ageing hooks)
 	TLS       bool
 	srv       *httptest.Server
 	cancel    context.CancelFunc
@@ -366,6 +367,7 @@ func Start(o Options) (*Env, error) {
 	caPEM, _ := os.ReadFile(certFile)
 	pool.AppendCertsFromPEM(caPEM)
 	env.CAPool = pool
+	env.CA = ca
 	// the proxy's upstream client is http.DefaultClient: let it trust the origin
 	if tr, ok := http.DefaultTransport.(*http.Transport); ok {
 		tr.TLSClientConfig = &tls.Config{RootCAs: pool}
